@@ -29,6 +29,21 @@ FLIP = {ast.Lt: ast.LtE, ast.LtE: ast.Lt, ast.Gt: ast.GtE, ast.GtE: ast.Gt, ast.
         ast.NotEq: ast.Eq, ast.Is: ast.IsNot, ast.IsNot: ast.Is, ast.In: ast.NotIn,
         ast.NotIn: ast.In}
 SWAP = {ast.Add: ast.Sub, ast.Sub: ast.Add, ast.Mult: ast.Div, ast.Div: ast.Mult}
+# data-level kinds (round 7): aliasing, reductions, argument order, keywords
+FNSWAP = {'all': 'any', 'any': 'all', 'min': 'max', 'max': 'min', 'amin': 'amax', 'amax': 'amin',
+          'argmin': 'argmax', 'argmax': 'argmin', 'floor': 'ceil', 'ceil': 'floor',
+          'nanmax': 'amax', 'nanmin': 'amin', 'logical_and': 'logical_or',
+          'logical_or': 'logical_and', 'zeros': 'ones', 'ones': 'zeros', 'cumsum': 'cumprod',
+          'append': 'insert', 'deepcopy': 'copy', 'sort': 'argsort', 'argsort': 'sort',
+          'isnan': 'isfinite', 'exp': 'log', 'log': 'exp', 'sum': 'prod', 'mean': 'median',
+          'vstack': 'hstack', 'unique': 'sort', 'logaddexp': 'maximum', 'minimum': 'maximum',
+          'maximum': 'minimum'}
+COPYFN = {'copy', 'deepcopy', 'array', 'asarray', 'atleast_1d', 'atleast_2d', 'list', 'tuple'}
+
+
+def _fname(call):
+    f = call.func
+    return f.attr if isinstance(f, ast.Attribute) else f.id if isinstance(f, ast.Name) else None
 
 
 def sites(tree, only_func=None):
@@ -61,6 +76,26 @@ def sites(tree, only_func=None):
             out.append(('del', i))
         elif isinstance(n, ast.If) and not n.orelse:
             out.append(('iftrue', i))
+        if isinstance(n, ast.Call):
+            fn = _fname(n)
+            if fn in FNSWAP:
+                out.append(('fnswap', i))
+            if fn in COPYFN and (len(n.args) == 1 or (
+                    fn == 'copy' and isinstance(n.func, ast.Attribute) and not n.args)):
+                out.append(('uncopy', i))
+            if len(n.args) >= 2 and not any(isinstance(x, ast.Starred) for x in n.args):
+                out.append(('argswap', i))
+            for j in range(len(n.keywords)):
+                if n.keywords[j].arg is not None:
+                    out.append(('kwdrop%d' % j, i))
+        if isinstance(n, ast.Assign) and len(n.targets) == 1 and isinstance(n.value, ast.BinOp) \
+                and ast.dump(n.targets[0]).replace('Store()', 'Load()') == ast.dump(n.value.left):
+            out.append(('aug', i))
+        if isinstance(n, ast.AugAssign):
+            out.append(('unaug', i))
+        if isinstance(n, ast.Subscript) and isinstance(n.slice, ast.Slice) and \
+                isinstance(n.ctx, ast.Load):
+            out.append(('unslice', i))
     return out
 
 
@@ -98,6 +133,39 @@ def mutate(src, kind, idx):
             return None, desc
     elif kind == 'iftrue':
         n.test = ast.copy_location(ast.Constant(value=True), n.test)
+    elif kind == 'fnswap':
+        new = FNSWAP[_fname(n)]
+        if isinstance(n.func, ast.Attribute):
+            n.func.attr = new
+        else:
+            n.func.id = new
+    elif kind == 'argswap':
+        n.args[0], n.args[1] = n.args[1], n.args[0]
+    elif kind.startswith('kwdrop'):
+        del n.keywords[int(kind[6:])]
+    elif kind in ('uncopy', 'aug', 'unaug', 'unslice'):
+        if kind == 'uncopy':
+            rep = n.args[0] if n.args else n.func.value
+        elif kind == 'aug':
+            rep = ast.AugAssign(target=n.targets[0], op=n.value.op, value=n.value.right)
+        elif kind == 'unaug':
+            load = ast.parse(ast.unparse(n.target)).body[0].value
+            rep = ast.Assign(targets=[n.target], value=ast.BinOp(left=load, op=n.op,
+                                                                  right=n.value))
+        else:
+            rep = n.value
+        ast.copy_location(rep, n)
+        done = False
+        for p in nodes:
+            for f, v in ast.iter_fields(p):
+                if v is n:
+                    setattr(p, f, rep)
+                    done = True
+                elif isinstance(v, list) and any(x is n for x in v):
+                    v[[x is n for x in v].index(True)] = rep
+                    done = True
+        if not done:
+            return None, desc
     ast.fix_missing_locations(tree)
     try:
         return ast.unparse(tree), desc
@@ -166,7 +234,8 @@ def main():
     src = open(os.path.join(a.repo, a.file)).read()
     # the unparsed form is what gets mutated: normalise first so that only the mutation differs
     tree = ast.parse(src)
-    st = [x for x in sites(tree, a.func) if x[0] in a.kinds.split(',')]
+    kinds = a.kinds.split(',')
+    st = [x for x in sites(tree, a.func) if x[0].rstrip('0123456789') in kinds]
     random.Random(a.seed).shuffle(st)
     st = st[:a.limit]
     work = [(a.file, k, i, a.repo) for k, i in st]
